@@ -70,6 +70,10 @@ func checkC20(t *testing.T, c *c20Case, rec *Recorder) []Diff {
 	var ds []Diff
 	add := func(sig, f string, a ...any) { ds = append(ds, Diff{"C20", sig, fmt.Sprintf(f, a...)}) }
 	labels := []string{"method:" + c.Method, "capability:" + c.Capability, "fault:" + c.FaultKind}
+	if o.Wire != nil && o.Wire.Overrun {
+		rec.Case(scenarioKey(c), true, c, append(labels, "other:never-ends")...)
+		return []Diff{{"C08", "run-never-ends", "request stopped by the harness watchdog (endless or spinning run)"}, {"C20", "never-ends", fmt.Sprintf("method %q against capability %s never came to an outcome (stopped by the harness watchdog)", c.Method, c.Capability)}}
+	}
 	if o.Panic != "" || o.Deadlock != "" || o.Wire == nil {
 		add("crash", "crashed: %s%s", o.Panic, o.Deadlock)
 		rec.Case(scenarioKey(c), true, c, labels...)
@@ -250,4 +254,48 @@ func TestC20(t *testing.T) {
 		c.HTTP = c.MinTTL == 1 && rapid.Bool().Draw(rt, "http")
 		return c
 	}, checkC20)
+}
+
+// TestC20ConnectTimeout (real clock): "cannot connect" includes a target that silently drops the SYN. A
+// connect that blocks in the kernel cannot run on the virtual clock, so this part uses real time: a
+// loopback listener with a full accept queue, prefer_sack with a 100 ms handshake timeout. Which timer
+// wins inside the dialer varies from attempt to attempt, hence several attempts per case.
+func TestC20ConnectTimeout(t *testing.T) {
+	attempts := 12
+	if tier() == "thorough" {
+		attempts = 40
+	}
+	rec := NewRecorder("C20", "C20ConnectTimeout", fmt.Sprintf("real clock, %d attempts: prefer_sack against a loopback port whose accept queue is full (the kernel drops the SYN, connect times out after the 100 ms handshake timeout); oracle: every attempt falls back to a SYN trace (one SYN flow on the wire, success); non-trivial = the connect really timed out (no connection was accepted)", attempts))
+	rec.Assumptions = append(rec.Assumptions, "real time; relies on the Linux behaviour of dropping SYNs when the accept queue is full")
+	RunCases(t, rec, func(yield func(*c20Case) bool) {
+		for i := 0; i < attempts; i++ {
+			c := &c20Case{Method: "prefer_sack", Capability: "drop-syn", MinTTL: 1, MaxTTL: 2, DestDist: 2, TimeoutMs: 100, ISN: uint32(i), SynAckUs: int64(i)}
+			if !yield(c) {
+				return
+			}
+		}
+	}, func(t *testing.T, c *c20Case, rec *Recorder) []Diff {
+		rq := c.request()
+		rq.RealTime = true
+		rq.Sack.DropSyn = true
+		rq.P.DelayMs = 0
+		o := RunRequest(t, rq)
+		if o.Panic != "" || o.Wire == nil {
+			return []Diff{{"C09", "crash", o.Panic}}
+		}
+		syn := 0
+		for _, probes := range sinkProbes(o.Wire) {
+			if probes[0].Kind == "tcp-syn" {
+				syn++
+			}
+		}
+		var ds []Diff
+		if o.Err != nil {
+			ds = append(ds, Diff{"C20", "no-fallback", fmt.Sprintf("the target drops the SYN (cannot connect) but prefer_sack did not fall back to SYN: %v", o.Err)})
+		} else if syn != 1 {
+			ds = append(ds, Diff{"C20", "fallback-missing", fmt.Sprintf("cannot connect: want 1 SYN flow, got %d", syn)})
+		}
+		rec.CaseEnumerated(o.SackAccept == 0, map[string]any{"attempt": c.ISN, "err": fmt.Sprint(o.Err), "syn_flows": syn}, "capability:drop-syn")
+		return ds
+	})
 }
